@@ -4,6 +4,7 @@ package vaa
 
 import (
 	"bytes"
+	"encoding/hex"
 	"fmt"
 	"testing"
 	"time"
@@ -166,9 +167,15 @@ type bytesCase struct {
 	RawN int        `json:"rawn"`
 	RawS uint64     `json:"raws"`
 	Muts []mutation `json:"muts"`
+	// RawHex, if set, is the input verbatim (a crasher found by the native fuzz target)
+	RawHex string `json:"rawhex,omitempty"`
 }
 
 func (c bytesCase) bytes() []byte {
+	if c.RawHex != "" {
+		b, _ := hex.DecodeString(c.RawHex)
+		return b
+	}
 	var b []byte
 	if c.Raw {
 		b = vh.Expand(c.RawS, c.RawN)
